@@ -705,7 +705,7 @@ def make_scheduler(case, space):
             so["local_minimizer_class"] = corner_optimizer_class(case["seed"])
     if kind == "hb-promotion-hypertune":
         so["model"] = "gp_independent"
-    common = dict(metric="m", mode="min", random_seed=seed, points_to_evaluate=pts)
+    common = dict(metric="m", mode=case.get("mode", "min"), random_seed=seed, points_to_evaluate=pts)
     if kind.startswith("fifo-"):
         return FIFOScheduler(space, searcher=kind[5:], search_options=so, **common)
     mra = case.get("max_resource_attr")        # name of the constant in the space which holds the maximum resource
@@ -713,7 +713,7 @@ def make_scheduler(case, space):
         _, typ, searcher = kind.split("-")
         lim = dict(max_resource_attr=mra) if mra else dict(max_t=9)
         return HyperbandScheduler(space, searcher=searcher, type=typ, resource_attr="epoch",
-                                  grace_period=1, reduction_factor=3, brackets=2 if searcher == "hypertune" else 1,
+                                  grace_period=case.get("grace_period", 1), reduction_factor=3, brackets=2 if searcher == "hypertune" else 1,
                                   search_options=so, **lim, **common)
     if kind == "dehb":
         lim = dict(max_resource_attr=mra) if mra else dict(max_resource_level=9)
